@@ -115,7 +115,7 @@ pub fn base_weights(prop: &str) -> Vec<u32> {
             set(stat);
             set(refresh);
             set(edits);
-            set(&[(Rekey, 4), (Prune, 2), (DisableAttr, 3), (Recaps, 2), (Reload, 1), (Backup, 1), (Restore, 1), (ForgedRefresh, 1)]);
+            set(&[(Rekey, 4), (Prune, 2), (DisableAttr, 3), (Recaps, 2), (Reload, 1), (Backup, 2), (Restore, 2), (ForgedRefresh, 1)]);
         }
         "C13" => {
             set(stat);
@@ -615,6 +615,9 @@ impl Gen {
             }
             x if x == Op::DelAttr as usize => {
                 if inv {
+                    if rng.pct(30) {
+                        return Some(Ev::DelAttr { dim: "NoSuchDim".into(), name: "x".into() });
+                    }
                     let d = rng.pick_opt(&s.dims)?;
                     return Some(Ev::DelAttr { dim: d.name.clone(), name: "no_such_attr".into() });
                 }
@@ -626,10 +629,16 @@ impl Gen {
                 let attrs = s.all_attrs();
                 let (d, a) = rng.pick_opt(&attrs)?.clone();
                 if inv {
-                    // onto an existing name of the same dimension (possibly itself)
-                    let dim = s.dim(&d)?;
-                    let other = rng.pick(&dim.attrs).name.clone();
-                    return Some(Ev::RenameAttr { dim: d, name: a, new: other });
+                    return Some(match rng.below(3) {
+                        0 => Ev::RenameAttr { dim: "NoSuchDim".into(), name: a, new: "x".into() },
+                        1 => Ev::RenameAttr { dim: d, name: "no_such_attr".into(), new: "fresh_name".into() },
+                        _ => {
+                            // onto an existing name of the same dimension (possibly itself)
+                            let dim = s.dim(&d)?;
+                            let other = rng.pick(&dim.attrs).name.clone();
+                            Ev::RenameAttr { dim: d, name: a, new: other }
+                        }
+                    });
                 }
                 let dim = s.dim(&d)?;
                 let new = self.fresh_attr_name(rng, dim);
@@ -637,6 +646,10 @@ impl Gen {
             }
             x if x == Op::DisableAttr as usize => {
                 if inv {
+                    if rng.pct(50) {
+                        let d = rng.pick_opt(&s.dims)?;
+                        return Some(Ev::DisableAttr { dim: d.name.clone(), name: "no_such_attr".into() });
+                    }
                     return Some(Ev::DisableAttr { dim: "NoSuchDim".into(), name: "x".into() });
                 }
                 let attrs = s.all_attrs();
